@@ -140,6 +140,12 @@ theorem eq_spec {n : Nat} {a b : Bits} {ma mb : Spec} (ha : Abs n a ma) (hb : Ab
   rw [← table_eq_iff]
   exact decide_eq_decide.1 this
 
+/-- The provided `!=` is the negation of `==`: two bitsets are unequal exactly when some index below `64 n`
+    is a member of one and not of the other. -/
+theorem ne_spec {n : Nat} {a b : Bits} {ma mb : Spec} (ha : Abs n a ma) (hb : Abs n b mb) :
+    bitsNe a b = !Spec.eq (64 * n) ma mb := by
+  unfold bitsNe; rw [beq_abs ha hb]
+
 /-- `Display` is the 0/1 string of `test`, index 0 first. -/
 theorem display_spec {n : Nat} {b : Bits} {m : Spec} (h : Abs n b m) (hcap : Cap n) :
     display b = .ok (String.join ((List.range (64 * n)).map (fun y => digit (m.mem y)))) :=
@@ -165,9 +171,29 @@ theorem history_refines {n k : Nat} (hn : 1 ≤ n) (ops : List Op) {s : St} {t :
     ∃ s', run n s ops = .ok s' ∧ RegsAbs n s'.regs (specRun t ops).regs ∧ s'.log = (specRun t ops).log ∧
       s'.regs.length = k := run_refines hn ops hr hl hk hd
 
+/-- One mid-history observation (`obs r`, wave 3): the state is not touched and the record appended to the observation
+    log — `test` on all indices, `count`, collected iterator, `Display`, `Debug`, the iterator probes of the register as
+    it is at that moment — is the specification's observation of the set the register holds at that moment. -/
+theorem obs_spec {n k : Nat} {s : St} {t : SpecSt} {r : Nat} (hr : RegsAbs n s.regs t.regs) (hk : s.regs.length = k)
+    (hrk : r < k) (hcap : Cap n) :
+    step n s (.obs r) = .ok { s with olog := s.olog ++ [specObserveReg n (specGet t.regs r)] } := by
+  obtain ⟨b, e, hb⟩ := getReg_abs hr (r := r) (by omega)
+  simp only [step, e, observeReg_abs hb hcap]
+
+/-- `history_refines` with the observation log: after any in-domain history (an `obs` step is in the domain when
+    the capacity guard holds) the model's mid-history observations are, one by one, the specification's
+    observations of the sets the registers held at those moments. -/
+theorem history_refines_obs {n k : Nat} (hn : 1 ≤ n) (ops : List Op) {s : St} {t : SpecSt}
+    (hr : RegsAbs n s.regs t.regs) (hl : s.log = t.log) (ho : s.olog = t.olog.map (specObserveReg n))
+    (hk : s.regs.length = k) (hd : ∀ op, op ∈ ops → op.inDomain n k = true) :
+    ∃ s', run n s ops = .ok s' ∧ RegsAbs n s'.regs (specRun t ops).regs ∧ s'.log = (specRun t ops).log ∧
+      s'.olog = (specRun t ops).olog.map (specObserveReg n) ∧ s'.regs.length = k :=
+  run_refines_obs hn ops hr hl ho hk hd
+
 /-- What the driver prints: on every in-domain case the model's observation (`M`) of the final
-    registers — `test` on all indices, `count`, collected iterator, `Display`, `Debug`, the `==`
-    matrix, the `test` log — is the specification's observation (`S`). -/
+    registers — `test` on all indices, `count`, collected iterator, `Display`, `Debug`, the iterator probes
+    (what is left after 0, 1, 2, l/2, l-1, l, l+1 calls of `next`), the `==` and `!=` matrices, the `test` log, the
+    mid-history observations — is the specification's observation (`S`). -/
 theorem history_observed {n k : Nat} (hn : 1 ≤ n) (hcap : Cap n) (ops : List Op)
     (hd : ops.all (Op.inDomain n k) = true) : runCase n k ops = .ok (specRunCase n k ops) :=
   runCase_refines hn hcap ops (fun op ho => List.all_eq_true.1 hd op ho)
@@ -175,9 +201,9 @@ theorem history_observed {n k : Nat} (hn : 1 ≤ n) (hcap : Cap n) (ops : List O
 /-- The representation invariant (`n` words, each a `u64`) holds after every in-domain history. -/
 theorem invariant_preserved {n k : Nat} (hn : 1 ≤ n) (ops : List Op)
     (hd : ∀ op, op ∈ ops → op.inDomain n k = true) :
-    ∃ s', run n ⟨List.replicate k (new n), []⟩ ops = .ok s' ∧ ∀ b, b ∈ s'.regs → WF n b := by
-  obtain ⟨s', e, hr, _, _⟩ := run_refines (k := k) hn ops (s := ⟨List.replicate k (new n), []⟩)
-    (t := ⟨List.replicate k Spec.empty, []⟩) (regsAbs_replicate n k) rfl (by simp) hd
+    ∃ s', run n ⟨List.replicate k (new n), [], []⟩ ops = .ok s' ∧ ∀ b, b ∈ s'.regs → WF n b := by
+  obtain ⟨s', e, hr, _, _⟩ := run_refines (k := k) hn ops (s := ⟨List.replicate k (new n), [], []⟩)
+    (t := ⟨List.replicate k Spec.empty, [], []⟩) (regsAbs_replicate n k) rfl (by simp) hd
   refine ⟨s', e, fun b hb => ?_⟩
   obtain ⟨i, hi, rfl⟩ := List.mem_iff_getElem.1 hb
   obtain ⟨b', e', ha⟩ := regsAbs_get hr hi
@@ -224,5 +250,22 @@ example : display [5] = .ok "101000000000000000000000000000000000000000000000000
 -- a history in the domain of `history_observed` (N = 2, three registers, boundaries 63/64/127)
 example : ([Op.set 0 63, .set 0 64, .set 1 127, .xor 2 0 1, .not 1 2, .test 1 127, .orA 0 1]).all (Op.inDomain 2 3) = true := by
   decide +kernel
+
+-- wave 3: a history with mid-history observations, capacities at and beyond the 64-word boundary
+example : ([Op.set 0 4095, .obs 0, .set 1 4096, .obs 1, .xor 2 0 1, .obs 2, .flip 0 4159]).all (Op.inDomain 65 3) = true := by
+  decide +kernel
+example : ([Op.set 0 8255, .obs 0, .not 1 0, .obs 1]).all (Op.inDomain 129 2) = true := by decide +kernel
+example : Cap 65 ∧ Cap 128 ∧ Cap 129 := by unfold Cap; omega
+example : (runCase 2 2 [.set 0 63, .obs 0, .set 0 64, .obs 0, .xor 1 0 0]).map (fun o => (o.olog.map (·.iter), o.nes)) =
+    .ok ([[63], [63, 64]], [[false, true], [true, false]]) := by decide +kernel
+example : bitsNe [2 ^ 63, 1] [2 ^ 63, 1] = false ∧ bitsNe [2 ^ 63, 1] [2 ^ 63, 0] = true := by decide +kernel
+example : probeKs 0 = [0, 1, 2] ∧ probeKs 1 = [0, 1, 2] ∧ probeKs 9 = [0, 1, 2, 4, 8, 9, 10] := by decide +kernel
+-- the provided Iterator methods as functions of the remaining list {3, 63, 64, 70, 127}
+example : cmpLex [3, 63] [63] = .lt ∧ cmpLex [3] [] = .gt ∧ cmpLex [] [] = .eq := by decide +kernel
+example : maxByKey (· % 64) [3, 63, 64, 70, 127] = some 127 ∧ minByKey (· % 64) [3, 63, 64, 70, 128] = some 64 := by
+  decide +kernel
+example : leftAfter (fun x => decide (64 ≤ x)) [3, 63, 64, 70, 127] = 2 ∧ leftAfter (fun x => decide (200 ≤ x)) [3, 63] = 0 := by
+  decide +kernel
+example : everyThird 0 [3, 63, 64, 70, 127] = [3, 70] ∧ reduce3 [3, 63, 64] = some 280 ∧ foldHash [] = 7 := by decide +kernel
 
 end Rlib.C12
